@@ -162,3 +162,28 @@ Lemma copt_rt o : copt_into (copt_from o) = o. Proof. destruct o; reflexivity. Q
 Lemma copt_rt' c : copt_from (copt_into c) = c. Proof. destruct c; reflexivity. Qed.
 Lemma cres_rt r : cres_into (cres_from r) = r. Proof. destruct r; reflexivity. Qed.
 Lemma cres_rt' c : cres_from (cres_into c) = c. Proof. destruct c; reflexivity. Qed.
+
+(* ---- contents seen through a view ---- *)
+Lemma view_contents mem a n : (a + n <= length mem)%nat ->
+  exists l, read_view mem (from_slice a n) = Some l /\ length l = n /\
+            forall i, (i < n)%nat -> nth_error l i = nth_error mem (a + i).
+Proof.
+  intros H. unfold read_view, from_slice, region. cbn [data slen].
+  destruct (Nat.leb_spec (a + n) (length mem)) as [_|C]; [|lia].
+  eexists; split; [reflexivity|]. split.
+  - rewrite firstn_length, skipn_length. lia.
+  - intros i Hi. rewrite nth_error_firstn_lt' by assumption. apply nth_error_skipn'.
+Qed.
+
+Lemma write_then_read mem a n i v : (i < n)%nat -> (a + n <= length mem)%nat ->
+  exists m' l', write_through mem (from_slice a n) i v = Some m' /\ read_view m' (from_slice a n) = Some l' /\
+                length l' = n /\ nth_error l' i = Some v /\
+                (forall j, (j < n)%nat -> j <> i -> nth_error l' j = nth_error mem (a + j)).
+Proof.
+  intros Hi Hn. destruct (write_lands mem a n i v Hi Hn) as (m' & W & Hv & Hl & Ho).
+  assert (Hn' : (a + n <= length m')%nat) by lia.
+  destruct (view_contents m' a n Hn') as (l' & R & Ll & Hc).
+  exists m', l'. repeat split; auto.
+  - rewrite Hc by assumption. exact Hv.
+  - intros j Hj Hne. rewrite Hc by assumption. apply Ho. lia.
+Qed.
